@@ -288,7 +288,9 @@ pub fn run(input: &Value) -> Case {
                         (out, match r { Ok(false) => 0u8, Ok(true) => 1u8, Err(_) => 2u8 })
                     })
                 };
-                (format!("CResp {} {} {}", id, copt(pl.map(|p| p.to_string())), cbool(err)), r)
+                // is the error genuine (the terminal side is taken to have lost the image) or spurious?
+                let lost = o["lost"].as_bool().unwrap_or(true);
+                (format!("CResp {} {} {} {}", id, copt(pl.map(|p| p.to_string())), cbool(err), cbool(lost)), r)
             }
             _ => {
                 let ev = if o["which"].as_u64().unwrap_or(0) % 2 == 0 {
@@ -511,7 +513,7 @@ fn gen_history(rng: &mut Rng, big: u8) -> Value {
                         json!({"pos":[p.0,p.1]})
                     }
                 };
-                ops.push(json!({"op":"resp","img":k,"pl":pl,"err":true}))
+                ops.push(json!({"op":"resp","img":k,"pl":pl,"err":true,"lost":rng.chance(2, 3)}))
             }
             17 => ops.push(json!({"op":"resp","img":k,"pl":Value::Null,"err":false})),
             18 => ops.push(json!({"op":"resp","img":Value::Null,"id":rng.below(1u64<<32),"pl":{"raw":rng.below(1u64<<32)},"err":true})),
@@ -558,6 +560,13 @@ pub fn generate(rng: &mut Rng, n: usize, tier: &str) -> Vec<Value> {
     for d in ["kitty", "kitty-boxed", "dummy", "dummy-boxed"] {
         v.push(json!({"kind_of": d}));
     }
+    // spurious error responses: the terminal side keeps image and placements, the handler re-transmits
+    v.push(json!({"quiet": true, "images":[{"h":3,"w":2,"seed":2,"style":0},{"h":1,"w":2,"seed":5,"style":0}],
+        "ops":[{"op":"draw","img":0,"pos":[0,0]},{"op":"draw","img":0,"pos":[5,7]},{"op":"draw","img":1,"pos":[5,7]},
+               {"op":"resp","img":0,"pl":{"pos":[5,7]},"err":true,"lost":false},
+               {"op":"erase","img":0,"pos":[0,0]},
+               {"op":"resp","img":0,"pl":Value::Null,"err":true,"lost":false},
+               {"op":"draw","img":0,"pos":[1,1]},{"op":"erase","img":1,"pos":[5,7]},{"op":"erase","img":0,"pos":Value::Null}]}));
     // placement ids a terminal could report, incl. 0, 1, the largest id and values beyond 32 bits
     for raw in [0u64, 1, 2, 458758, 4294967295, 4294967296, u64::MAX] {
         v.push(json!({"quiet": true, "images":[{"h":2,"w":3,"seed":3,"style":0}],
